@@ -7,8 +7,8 @@
 set -e
 n=$1; d=/tmp/ag_$n
 rm -rf $d; mkdir -p $d/bin $d/out
-git clone -q /repo $d/repo && git -C $d/repo checkout -q -b work
-git clone -q /verif $d/verif && git -C $d/verif checkout -q -b work
+git clone -q ${SRC_REPO:-/repo} $d/repo && git -C $d/repo checkout -q -b work
+git clone -q ${SRC_VERIF:-/verif} $d/verif && git -C $d/verif checkout -q -b work
 git -C $d/repo config user.email agent@verif; git -C $d/repo config user.name "$n"
 git -C $d/verif config user.email agent@verif; git -C $d/verif config user.name "$n"
 ln -s $d/verif/govc $d/govc
